@@ -392,6 +392,10 @@ def _b_tensor(w, a, cov=True, dt="i"):
     return Tensor(_arr(a, dt), covariant=cov)
 
 
+def _b_ctensor(w, re, im, cov=True):
+    return Tensor(np.array(re, dtype=np.int64) + 1j * np.array(im, dtype=np.int64), covariant=cov if cov else False)
+
+
 def _b_tensorcoll(w, a, cov=True, rank=1, dt="i"):
     return TensorCollection(_arr(a, dt), covariant=cov, tensor_rank=rank)
 
